@@ -6,15 +6,6 @@ Require Import CV.Model.PyPrelude CV.Model.Ast CV.Model.Build CV.Proofs.AstLemma
 Import ListNotations.
 Open Scope Z_scope.
 
-(* free variables: (is_bool, id) *)
-Fixpoint fvars (e : expr) : list (bool * Z) :=
-  match e with
-  | BVS n _ => [(false, n)]
-  | BoolS n => [(true, n)]
-  | BVVe _ _ | BoolVe _ => []
-  | Node _ _ args _ => flat_map fvars args
-  end.
-
 Definition agree (rho rho' : env) (vs : list (bool * Z)) : Prop :=
   forall b n, In (b, n) vs -> if b then boolenv rho n = boolenv rho' n else bvenv rho n = bvenv rho' n.
 
